@@ -43,18 +43,50 @@ def decision_table(prog, fn, classify, domains, outcome=None):
         assign = {k: v for k, v in zip(keys, combo)}
         outs = set()
         seen = set()
-        stack = [(0, False)]
+        stack = [(0, False, ())]
         while stack:
-            bb, erred = stack.pop()
-            if (bb, erred) in seen:
+            bb, erred, envt = stack.pop()
+            if (bb, erred, envt) in seen:
                 continue
-            seen.add((bb, erred))
+            seen.add((bb, erred, envt))
             erred = erred or bb in err_blocks
+            # boolean verdicts computed on the way (`let refuse = ..; if refuse { .. }`, a helper's return value after
+            # inlining): locals that hold a known constant on this path
+            env = dict(envt)
+            for s_ in fn.stmts(bb):
+                if s_["k"] != "assign":
+                    continue
+                l_ = s_["place"]["l"]
+                if "p" in s_["place"]:
+                    env.pop(l_, None)
+                    continue
+                rv_ = s_["rv"]
+                val_ = None
+                if rv_["k"] == "use":
+                    c_ = rv_["op"].get("c")
+                    if c_ is not None and "int" in c_:
+                        val_ = str(c_["int"])
+                    else:
+                        p_ = op_place(rv_["op"])
+                        if p_ is not None and "p" not in p_ and p_["l"] in env:
+                            val_ = env[p_["l"]]
+                if val_ is None:
+                    env.pop(l_, None)
+                else:
+                    env[l_] = val_
             t = fn.term(bb)
+            if t["k"] == "call" and t.get("dest") is not None:
+                env.pop(t["dest"]["l"], None)
+            envt = tuple(sorted(env.items()))
             if t["k"] == "return":
                 outs.add("err" if erred else "ok")
                 continue
             if t["k"] == "switch":
+                dp_ = op_place(t["discr"])
+                if dp_ is not None and "p" not in dp_ and dp_["l"] in env:
+                    listed_ = {v: x for v, x in t["arms"]}
+                    stack.append((listed_.get(env[dp_["l"]], t["otherwise"]), erred, envt))
+                    continue
                 key, kind, adt = sw.get(bb, (None, None, None))
                 if key is not None and key in assign:
                     label, val = assign[key]
@@ -66,7 +98,7 @@ def decision_table(prog, fn, classify, domains, outcome=None):
                                 tgt = x
                         if tgt is None:
                             tgt = t["otherwise"]
-                        stack.append((tgt, erred))
+                        stack.append((tgt, erred, envt))
                         continue
                     else:
                         # val is a set of discriminant strings this abstract value may have
@@ -76,13 +108,13 @@ def decision_table(prog, fn, classify, domains, outcome=None):
                         for dv in vals:
                             tgts.add(listed.get(dv, t["otherwise"]))
                         for x in tgts:
-                            stack.append((x, erred))
+                            stack.append((x, erred, envt))
                         continue
             succ = fn.succ[bb]
             if not succ:
                 outs.add("diverge")
             for x in succ:
-                stack.append((x, erred))
+                stack.append((x, erred, envt))
         table[tuple(assign[k][0] for k in keys)] = frozenset(outs)
     return keys, table
 
